@@ -71,6 +71,7 @@ def make_net(rng, idx, profile):
         bb = netgen.B(rng, f"casclut{idx}", rng.choice(["int8", "int8", "uint8", "int16"]))
         h, w = rng.choice([33, 37, 48, 64]), rng.choice([32, 64])
         c0, mid = rng.choice([4, 8]), rng.choice([24, 32, 48])
+        bb.set_extremes(0.1)
         x = bb.input([1, h, w, c0])
         kinds = [rng.choice(["lut", "lut", "dw", "pool", "conv", "lut"]) for _ in range(rng.randint(1, 3))]
         if "lut" not in kinds:
@@ -92,16 +93,28 @@ def make_net(rng, idx, profile):
         return bb.finish([cur])
     if profile == "pattern":
         return netgen.pattern_net(rng, idx)
+    if profile.startswith("sweep:"):
+        # deterministic pattern sweep (harness/sweep.py): the job index selects the sub-kind of the family
+        return netgen.pattern_net(rng, idx, profile.split(":", 1)[1], variant=idx)
     if profile.startswith("pattern:"):
         return netgen.pattern_net(rng, idx, profile.split(":", 1)[1])
     if profile == "weird":
         return netgen.weird_net(rng, idx)
+    if profile == "act_extremes":
+        import extremes_gen
+
+        return extremes_gen.act_extremes_net(rng, idx)
+    if profile == "rejected":
+        import reject_gen
+
+        return reject_gen.rejected_net(rng, idx)
     if profile == "known_cascade_s3":
         # DESIGN.md section 8 #7: rolling buffer too small for a 3x3 stride-3 SAME consumer, H mod 3 == 1
         return netgen.cascade_net(rng, idx, h=37, w=64, c=32,
                                   specs=[(3, 1, "SAME", "conv"), (3, 3, "SAME", "conv"), (3, 1, "SAME", "conv")])
     if profile == "lut":
         b = netgen.B(rng, f"lut{idx}", rng.choice(["int8", "uint8", "int8", "int16"]))
+        b.set_extremes(0.3, 0.5)      # table-lookup activations must see quantisation extremes (scale 1e-8 .. 1e3, end zero points)
         x = b.input([1, rng.randint(1, 12), rng.randint(1, 12), rng.choice([1, 4, 8, 16, 20])])
         cur = x
         for _ in range(rng.randint(1, 5)):
@@ -148,6 +161,7 @@ def _worker(job):
         opts = sample_config(rng, profile)
         if "more_opts" in want:
             opts += more_options(rng)
+        opts += [e for e in getattr(net, "extra_opts", []) if e not in opts]      # options a generated case asks for
         if profile == "known_cascade_s3":
             opts = ["--accelerator-config", "ethos-u55-128", "--optimise", "Size"]
         if net.name.endswith(("casc_s2_valid",)) and rng.random() < 0.7:
@@ -161,8 +175,16 @@ def _worker(job):
                 opts += more_options(rng)
         if net.name.endswith(("fc1_after_conv", "deep_slices")) and rng.random() < 0.5:
             opts = ["--accelerator-config", "ethos-u65-512"] + opts[2:]
+        if profile.startswith("sweep:"):
+            import sweep as sweep_mod
+
+            # the sweep's own configuration, whatever the name-based overrides above drew
+            opts = sweep_mod.config(rng, profile, idx) + (more_options(rng) if "more_opts" in want else [])
         data = netgen.serialize(net)
         out.update(desc=net.describe(), opts=opts, src_ops=[o.kind for o in net.ops])
+        import netgen_ext
+
+        out["src_tags"] = netgen_ext.source_tags(net)
         res = pipeline.compile_net(data, opts, name=f"n{idx}")
         out.update(status=res.status, exc=(type(res.exc).__name__ + ": " + str(res.exc))[:300] if res.exc is not None else "",
                    tb=res.tb[-1500:], ret=res.ret, exc_site=exc_site(res.tb, res.exc))
@@ -218,8 +240,9 @@ def replay_jobs(ck, want):
     return [(rp["seed"], rp["index"], rp["profile"], want)]
 
 
-def run_corpus(ck, n, profiles=None, want=("stream",), jobs=None, corpus_first=True):
-    """Compile `n` generated networks (plus the corpus) and return the list of worker outputs."""
+def run_corpus(ck, n, profiles=None, want=("stream",), jobs=None, corpus_first=True, sweep=False):
+    """Compile `n` generated networks (plus the corpus, plus the pattern sweep when `sweep`) and return the list of
+    worker outputs."""
     import pipeline
 
     pipeline.load_vela()       # build the C extension once, before forking
@@ -232,6 +255,10 @@ def run_corpus(ck, n, profiles=None, want=("stream",), jobs=None, corpus_first=T
     if corpus_first:
         for j, (p, s, i) in enumerate(CORPUS):
             jobs_list.append((s, i, p, want))
+    if sweep:
+        import sweep as sweep_mod
+
+        jobs_list += [(ck.seed, i, p, want) for p, i in sweep_mod.jobs(ck.thorough)]
     for i in range(n):
         jobs_list.append((ck.seed, i, profiles[i % len(profiles)], want))
     jobs = jobs or min(16, os.cpu_count() or 4)
